@@ -244,4 +244,4 @@ def order_insensitive_reductions(ctx, rule='C16-R2'):
             ctx.check(ok, rule, q, loop.node, loop.func.loc(loop.node),
                       'a loop over the ceilometer names carries state other than a running sum: its result can '
                       'depend on the order (= spelling) of the names', instance=f'{q}: loop over names only accumulates')
-    ctx.floor(rule, 'per-ceilometer comprehensions / loops', n, 2)
+    ctx.floor(rule, 'per-ceilometer comprehensions / loops', n, 1)
